@@ -31,7 +31,7 @@ cpdef int project_date_to_idx(
         Slot index
     """
     cdef double diff_seconds
-    cdef int idx
+    cdef long long idx  # dates far from the project start (an open-ended leave) need more than 32 bits
 
     if start is None:
         return 0
@@ -42,7 +42,7 @@ cpdef int project_date_to_idx(
     except AttributeError:
         diff_seconds = <double>(date - start)
 
-    idx = <int>(diff_seconds / <double>granularity)
+    idx = <long long>(diff_seconds / <double>granularity)
     return idx
 
 
